@@ -7,7 +7,9 @@
     * an enum value's internal (Python) value is not observable;
     * a default is observable as its printed text only (`defaultValue`), absence as null;
     * component lists that do not apply to a type's kind are not observable (they are empty in every
-      description dumped from a live schema).
+      description dumped from a live schema);
+    * execution-side attributes of the shared description (resolver signatures, `python_name`, `builtin`,
+      default resolvers) are not part of what introspection reports.
   Nothing else is dropped: names, kinds, descriptions, fields with arguments and types, deprecation
   reasons, interfaces, input fields, enum values, directives with locations and arguments, root types.
 -/
@@ -67,25 +69,36 @@ def schemaOfIntrospection (data : J) : SchemaD :=
 
 /-! ### what is observable -/
 
-def normArg (s : SchemaD) (a : ArgD) : ArgD :=
-  { a with default := jChars (formatDefaultValue s a.hasDefault a.default a.type),
-           hasDefault := (formatDefaultValue s a.hasDefault a.default a.type).isSome }
+/-! `norm` is written as explicit PROJECTIONS on the components introspection can observe: every other field of
+    the shared description (resolver signatures, `python_name`, `builtin`, … — added by other properties) takes its
+    declared default, exactly as in what the decoder builds. -/
 
-def normField (s : SchemaD) (f : FieldD) : FieldD := { f with args := f.args.map (normArg s) }
+def normArg (s : SchemaD) (a : ArgD) : ArgD :=
+  { name := a.name, type := a.type,
+    hasDefault := (formatDefaultValue s a.hasDefault a.default a.type).isSome,
+    default := jChars (formatDefaultValue s a.hasDefault a.default a.type), desc := a.desc }
+
+def normField (s : SchemaD) (f : FieldD) : FieldD :=
+  { name := f.name, type := f.type, args := f.args.map (normArg s), deprecated := f.deprecated, desc := f.desc }
+
+def normEnumVal (v : EnumValD) : EnumValD :=
+  { name := v.name, value := .null, deprecated := v.deprecated, desc := v.desc }
 
 def normType (s : SchemaD) (t : TypeD) : TypeD :=
-  { t with
+  { kind := t.kind, name := t.name, desc := t.desc,
     interfaces := if t.kind == .object then t.interfaces else [],
     fields := if t.kind == .object || t.kind == .interface then t.fields.map (normField s) else [],
     members := if t.kind == .union then sortBy id t.members else [],
-    values := if t.kind == .enum then t.values.map (fun v => { v with value := .null }) else [],
+    values := if t.kind == .enum then t.values.map normEnumVal else [],
     inputFields := if t.kind == .input then t.inputFields.map (normArg s) else [] }
 
-def normDirective (s : SchemaD) (d : DirectiveD) : DirectiveD := { d with args := d.args.map (normArg s) }
+def normDirective (s : SchemaD) (d : DirectiveD) : DirectiveD :=
+  { name := d.name, locations := d.locations, args := d.args.map (normArg s), desc := d.desc }
 
 def norm (s : SchemaD) : SchemaD :=
-  { s with types := (sortBy (·.name) s.types).map (normType s),
-           directives := (sortBy (·.name) s.directives).map (normDirective s) }
+  { types := (sortBy (·.name) s.types).map (normType s),
+    directives := (sortBy (·.name) s.directives).map (normDirective s),
+    query := s.query, mutation := s.mutation, subscription := s.subscription }
 
 /-- every type reference fits the 8 levels of the standard query's `TypeRef` fragment -/
 def argsFit (as : List ArgD) : Bool := as.all fun a => a.type.size ≤ typeRefLevels
